@@ -437,6 +437,14 @@ Definition slices_ok (S : stable) : bool :=
              | None => false
              end) expected_slices.
 
+(* signal_connect(signal, [obj,] fun) is signal.connect(ptr_fun(fun)) / signal.connect(mem_fun(obj, fun)):
+   each overload hands its own parameters, in order, to the functor factory of its kind, so the slot
+   it connects is the FMem / leaf slot of the model (tracked, references kept) *)
+Definition signal_connect_ok (l : list (string * string * bool)) : bool :=
+  let has k f := existsb (fun '(k', f', io) => String.eqb k k' && String.eqb f f' && io) l in
+  has "fun" "ptr_fun" && has "mem" "mem_fun" && has "const_mem" "mem_fun" &&
+  forallb (fun '(k, f, io) => io && (if String.eqb k "fun" then String.eqb f "ptr_fun" else String.eqb f "mem_fun")) l.
+
 (* arity discipline (what the C++ type checker enforces about argument counts) *)
 Fixpoint wt (e : fexpr) (n : nat) : bool :=
   match e with
